@@ -40,6 +40,25 @@ class Inconclusive(Exception):
     pass
 
 
+# Twisted's log: keep it off stderr, but count what was logged as an error (diagnostic only, e.g.
+# "Unhandled error in Deferred" or exceptions the reactor would have logged).
+TWISTED_ERRORS = []
+
+
+def _observer(event):
+    if event.get('isError'):
+        if len(TWISTED_ERRORS) < 1000:
+            f = event.get('failure')
+            TWISTED_ERRORS.append(repr(f.value)[:200] if f is not None else str(event.get('why'))[:200])
+
+
+try:
+    from twisted.python import log as _tlog
+    _tlog.startLoggingWithObserver(_observer, setStdout=False)
+except Exception:
+    pass
+
+
 def jsonable(x, depth=0):
     """Best-effort conversion of arbitrary witness data into JSON-encodable data."""
     if depth > 12:
@@ -203,6 +222,7 @@ class Ctx:
             cov['exhaustive'] = bool(self.exhaustive)
         cov['truncated_by_time'] = self.truncated
         cov['known_findings_hit'] = dict(self.known_hits)
+        cov['twisted_logged_errors'] = len(TWISTED_ERRORS)
         cov.update(self.notes)
         if 'distinct_nontrivial' not in cov:
             cov['distinct_nontrivial'] = cov.get('distinct_nontrivial_cases', 0)
